@@ -153,7 +153,9 @@ class BalanceOracle:
                     flagged.append(p)
                     break
                 a = abs(as_float(v)) if not isinstance(v, (int, Fraction)) else abs(v)
-                gamma = 0.0 if exact else 4 * max(n, 1) * EPS * as_float(ab.cell[lab]) + 4 * EPS * tol
+                # a balance that is the difference of two single terms is computed exactly by IEEE subtraction whenever it is
+                # within a factor of two (Sterbenz) and never rounds a non-zero difference to zero: no error band needed
+                gamma = 0.0 if exact else ((2 * EPS * as_float(a) + 4 * EPS * tol) if n <= 2 else 4 * max(n, 1) * EPS * as_float(ab.cell[lab]) + 4 * EPS * tol)
                 if not exact and abs(as_float(a) - tol) <= gamma:
                     band = True
                 if a > tol:
@@ -350,6 +352,35 @@ def build_case(fd, rng, tier, i):
     return d, mfa, regime, balanced
 
 
+def tiny_chain_case(rec, hub, rng):
+    """sysenv -> A -> sysenv with identical dims: every balance is one subtraction, so rounding-size imbalances are judged exactly;
+    explicit tolerances include 0 (exactly balanced passes, the smallest imbalance is flagged)"""
+    fd = hub.fd
+    d = SY.Def()
+    d.dims = [("t", "time", [2000, 2001, 2002], int), ("r", "region", ["EUR", "USA"], str)]
+    d.processes = ["sysenv", "use phase"]
+    letters = ("t", "r") if rng.random() < 0.5 else ("r", "t")
+    d.flows = [dict(src="sysenv", dst="use phase", letters=letters, override="fl00q"), dict(src="use phase", dst="sysenv", letters=letters[::-1] if rng.random() < 0.5 else letters, override="fl01q")]
+    mfa = SY.build_system(fd, d)
+    fin, fout = mfa.flows["fl00q"], mfa.flows["fl01q"]
+    v = rng.uniform(0.1, 10.0, size=fin.dims.shape)
+    fin[...] = v
+    out = fin.sum_to(fout.dims.letters).values.copy()  # same entries, the other flow's order (no summation involved)
+    k = int(rng.integers(0, 4))
+    pos = tuple(int(q) for q in np.unravel_index(int(rng.integers(0, out.size)), out.shape))
+    if k:
+        out[pos] = np.nextafter(out[pos], np.inf if rng.random() < 0.5 else -np.inf) if k == 1 else out[pos] * (1 + k * EPS)
+    fout[...] = out
+    hub.ctx["perturbation"] = f"tiny-chain:{'balanced' if k == 0 else 'ulps'}"
+    for tol in (0.0, 0, None, float(np.float64(0.0)), 1e-12):
+        for raise_error in (True, False):
+            try:
+                mfa.check_mass_balance(tolerance=tol, raise_error=raise_error) if tol is not None else mfa.check_mass_balance(raise_error=raise_error)
+            except Exception:
+                pass
+    hub.ctx.pop("perturbation", None)
+
+
 def perturb_pair(mfa, rng, delta):
     """+delta at one entry and -delta at another entry of the same array: totals are preserved, balances by label are not"""
     arrays = [f for f in mfa.flows.values() if f.values.size > 1 and f.values.dtype.kind == "f"]
@@ -492,9 +523,15 @@ def run(rec, hub, tier, seed, shard, nshards, budget):
         i = kk * nshards + shard
         rec.set_case(driver="c02.system", seed=seed, tier=tier, shard=shard, nshards=nshards, idx=i)
         one(rec, hub, seed, tier, i)
+        if kk % 5 == 0:
+            rec.set_case(driver="c02.tiny", seed=seed, tier=tier, shard=shard, nshards=nshards, idx=i)
+            tiny_chain_case(rec, hub, case_nprng(seed, "c02.tiny", 0, i))
 
 
 def replay(rec, hub, case):
     register(hub)
     rec.set_case(**case)
+    if case["driver"] == "c02.tiny":
+        tiny_chain_case(rec, hub, case_nprng(case["seed"], "c02.tiny", 0, case["idx"]))
+        return
     one(rec, hub, case["seed"], case.get("tier", "quick"), case["idx"])
